@@ -9,18 +9,38 @@ from vlib import docrun as D
 
 RULE = ('(a) generated documents with LF line structure (line-heavy, default, whitespace-rich, list, twin profiles): every '
         'command, environment, group, math region, argument group and text token satisfies src[p:p+len(str(n))]==str(n); '
-        '(b) char_pos_to_line(i) == (number of LF before i, distance to the previous LF) for every offset of those '
-        'documents and of ALL strings over {a, LF} up to length L (exhaustive); (c) for a fixed regex family every '
+        '(b) char_pos_to_line(i) == (number of LF before i, distance to the previous LF) for every offset (asked front to back, back to front and scattered, on one parse) of those '
+        'documents and of ALL strings over {a, LF} up to length L (exhaustive); (c) for a fixed regex family (plain, grouping, look-around, precompiled) every '
         'search_regex match m satisfies src[m.position:m.position+len(m)]==m and the matches equal re.finditer applied to '
         'every leaf of soup.text at that leaf\'s offset. Non-trivial = document with >=3 lines and a node not at column 0, '
         'or a regex with >=2 matches in one leaf; for (b) every string with an LF; distinct by source')
 ASSUMPTIONS = ['fresh parses only (positions are documented as not updated by edits)']
 PROFILES = ['lines', 'quick', 'ws', 'lists', 'lines', 'twin', 'lines', 'defs']
-REGEXES = [r'[a-z]+', r'\d+', r'\s+', r'.', r'\S+', r'\\.', r'\[|\]', r'a|b|x', r'x*', r'(?m)^.', r'o+\b']
+REGEXES = [r'[a-z]+', r'\d+', r'\s+', r'.', r'\S+', r'\\.', r'\[|\]', r'a|b|x', r'x*', r'(?m)^.', r'o+\b',
+           # capturing groups (the documented result is the whole match), look-around, precompiled patterns
+           r'\w(\w+)', r'(\w)(\w)', r'(?:a|x|o) ?(\w)', r'(?<=\w)\w', r'\w(?=\w)', r'[a-z] (?P<n>\w+)',
+           re.compile(r'\w(\w)'), re.compile(r'[A-Z]+', re.I)]
+
+
+def _rxname(rx):
+    return rx if isinstance(rx, str) else 're.compile(%r, %d)' % (rx.pattern, rx.flags)
+
+
+def lookup_orders(n):
+    """Offsets 0..n-1 front to back, then back to front, then a fixed scatter (multiplicative stride) - all on the
+    same soup, so a line map that keeps state between look-ups is exercised in every direction."""
+    for i in range(n):
+        yield i
+    for i in range(n - 1, -1, -1):
+        yield i
+    if n > 2:
+        k = next(k for k in (7, 11, 13, 17, 19, 23, 29, 31) if n % k)
+        for j in range(n):
+            yield (j * k + 3) % n
 
 
 def check_positions_map(src, soup, case, kind='C13'):
-    for i in range(len(src)):
+    for i in lookup_orders(len(src)):
         got = soup.char_pos_to_line(i)
         want = O.ref_line_col(src, i)
         if tuple(got) != want:
@@ -38,7 +58,7 @@ def check_regex(src, soup, case):
             base = getattr(leaf, 'position', None)
             if not isinstance(base, int) or base < 0:
                 continue
-            ms = [(base + m.start(), m.group()) for m in re.finditer(rx, str(leaf))]
+            ms = [(base + m.start(), m.group()) for m in re.finditer(rx, str(leaf))]   # start()/group() of the WHOLE match
             if len(ms) >= 2:
                 labels.add('nt:regex-2+-matches-in-leaf')
             want.extend(ms)
@@ -46,11 +66,11 @@ def check_regex(src, soup, case):
         for m in soup.search_regex(rx):
             p = getattr(m, 'position', None)
             if not isinstance(p, int) or src[p:p + len(m)] != str(m):
-                raise H.Violation('C13:regex-offset', dict(case, regex=rx),
+                raise H.Violation('C13:regex-offset', dict(case, regex=_rxname(rx)),
                                   'match %r reported at %r, source there is %r' % (str(m), p, src[p:p + len(m)] if isinstance(p, int) else None))
             got.append((p, str(m)))
         if sorted(got) != sorted(want):
-            raise H.Violation('C13:regex-matches', dict(case, regex=rx),
+            raise H.Violation('C13:regex-matches', dict(case, regex=_rxname(rx)),
                               'search_regex(%r) gave %r, finditer over the text leaves gives %r' % (rx, sorted(got)[:8], sorted(want)[:8]))
     return labels
 
@@ -75,7 +95,8 @@ def check_doc(nodes, src, case, res):
 
 
 def plan(ctx):
-    shards = [('doc', PROFILES[i % len(PROFILES)], ctx.pick(500, 12000), i) for i in range(16)]
+    shards = [('doc', PROFILES[i % len(PROFILES)], ctx.pick(400, 12000), i) for i in range(16)]
+    shards += [('doc', 'flat', ctx.pick(12, 300), 16), ('doc', 'flat', ctx.pick(12, 300), 17)]   # three-digit line numbers
     L = ctx.pick(11, 14)
     return [('shard_lines', [('lines', L, i, 16) for i in range(16)]), ('shard_docs', shards)]
 
